@@ -171,7 +171,7 @@ def obligations(tier, seed):
         size = common.templates.doc(p["schema"], p["doc"]).content.size
         q = dict(p)
         if tier == "quick":
-            q.update(ss=[0, 2, 3, 4, 13, common.templates.nslices(p["schema"])], ms=[0, 1, 2])    # last = the empty slice
+            q.update(ss=[0, 2, 3, 4, common.templates.nslices(p["schema"])], ms=[0, 1, 2])    # last = the empty slice
         C_ = ops.payloads(common.load(p))
         for a1 in range(size + 1):
             if C_.is_split(a1):
